@@ -8,6 +8,9 @@ import tempfile
 import impl
 from sx import run_model
 
+# GLEP 74 names -> the algorithm each denotes, as hashlib calls it (written down here, not taken from gemato)
+MANIFEST_TO_LIB = {'MD5': 'md5', 'SHA1': 'sha1', 'SHA256': 'sha256', 'SHA512': 'sha512', 'RMD160': 'ripemd160', 'WHIRLPOOL': 'whirlpool',
+                   'BLAKE2B': 'blake2b', 'BLAKE2S': 'blake2s', 'SHA3_256': 'sha3_256', 'SHA3_512': 'sha3_512'}
 MANIFEST_NAMES = ['MD5', 'SHA1', 'SHA256', 'SHA512', 'RMD160', 'WHIRLPOOL', 'BLAKE2B', 'BLAKE2S', 'SHA3_256', 'SHA3_512']
 
 
@@ -356,3 +359,66 @@ def c17(ctx):
         import shutil
         shutil.rmtree(td, ignore_errors=True)
     ctx.count('hash:names', k, k, dist={'available': avail, 'runs_with_a_wrong_st_size': wrong})
+    rewritten_in_place(ctx)
+
+
+def rewritten_in_place(ctx):
+    """the digest is that of the content the file has NOW: one process asks about one file several times while the file is rewritten in
+    place between the questions - same inode, same length, the modification time put back (rsync -t, cp -p, two writes within one clock
+    tick) - through every front end that hashes files: get_file_metadata, verify_path, update_entry_for_path, hash_path"""
+    import shutil
+    import gemato.verify as gv
+    import gemato.hash as gh
+    import gemato.manifest as gm
+    r = ctx.rng('c17rewrite')
+    td = tempfile.mkdtemp(prefix='gv-c17r-')
+    st = {'questions': 0, 'files': 0}
+    try:
+        for i in range(40 if ctx.tier == 'quick' else 400):
+            p = os.path.join(td, 'f%d' % i)
+            ln = r.choice([1, 7, 300, 65536, 65537])
+            hs = r.choice([['SHA1'], ['MD5', 'SHA256'], ['BLAKE2B', 'SHA512']])
+            contents = [bytes([65 + k]) * ln for k in range(r.randint(2, 3))]
+            st['files'] += 1
+            for k, data in enumerate(contents):
+                with open(p, 'r+b' if k else 'wb') as f:        # in place: the inode stays
+                    f.write(data)
+                os.utime(p, (1500000000, 1500000000))
+                want = dict([(h, ref_digest(MANIFEST_TO_LIB.get(h, h.lower()), data)) for h in hs])
+                front = r.choice(['get_file_metadata', 'verify_path', 'update_entry_for_path', 'hash_path'])
+                st['questions'] += 1
+                bad = None
+                if front == 'get_file_metadata':
+                    g = gv.get_file_metadata(p, hs)
+                    try:
+                        got = list(g)[-1]
+                    finally:
+                        g.close()
+                    if any(got.get(h) != want[h] for h in hs) or got.get('__size__') != ln:
+                        bad = got
+                elif front == 'verify_path':
+                    ent = gm.ManifestEntryDATA('f', ln, dict(want))
+                    res = gv.verify_path(p, ent)
+                    if res[0] is not True:
+                        bad = res
+                    # ... and an entry with the digests of the PREVIOUS content must not verify
+                    if k and not bad:
+                        old = dict([(h, ref_digest(MANIFEST_TO_LIB.get(h, h.lower()), contents[k - 1])) for h in hs])
+                        res2 = gv.verify_path(p, gm.ManifestEntryDATA('f', ln, old))
+                        if res2[0] is not False:
+                            bad = ['stale entry accepted', res2]
+                elif front == 'update_entry_for_path':
+                    ent = gm.ManifestEntryDATA('f', ln, dict.fromkeys(hs, '00'))
+                    gv.update_entry_for_path(p, ent, hashes=hs)
+                    if any(ent.checksums.get(h) != want[h] for h in hs) or ent.size != ln:
+                        bad = [ent.size, ent.checksums]
+                else:
+                    got = gh.hash_path(p, [MANIFEST_TO_LIB.get(h, h.lower()) for h in hs] + ['__size__'])
+                    if any(got.get(MANIFEST_TO_LIB.get(h, h.lower())) != want[h] for h in hs) or got.get('__size__') != ln:
+                        bad = got
+                if bad is not None:
+                    ctx.violation('spec', f'{front} on a file rewritten in place (content no. {k + 1}, {ln} bytes, same inode and modification time) does not report the digests of the present content: {str(bad)[:200]}',
+                                  {'front_end': front, 'length': ln, 'hashes': hs, 'contents': [c[:1].decode() + ' x %d' % ln for c in contents[:k + 1]]})
+    finally:
+        shutil.rmtree(td, ignore_errors=True)
+    ctx.count('hash:rewritten-in-place', st['questions'], st['questions'], dist=st)
